@@ -83,6 +83,7 @@ package execution
 //@   ensures [written_under_current_key] err == nil ==> cacheWrites > old(cacheWrites) && lastWrittenKey == target.ChangeHash
 //@   ensures [no_output_hash_is_change_hash] err == nil && !inSlice(target.Tags, "no-cache") && e.enableCache && len(target.Outputs) == 0 && target.BinOutput.Identifier == "" ==> target.OutputHash == target.ChangeHash
 //@   ensures [declared_outputs_written] err == nil && !inSlice(target.Tags, "no-cache") && e.enableCache && (len(target.Outputs) > 0 || target.BinOutput.Identifier != "") && !old(target.outputsStored) ==> target.outputsStored
+//@   ensures [uncached_target_exposes_the_hash_of_its_local_outputs] err == nil && (inSlice(target.Tags, "no-cache") || !e.enableCache) ==> nocacheHashings > old(nocacheHashings) && target.OutputHash == lastNoCacheHash
 //@   ensures [outputs_marked_loaded] err == nil ==> target.OutputsLoaded
 //@   ensures [loaded_monotone] forall x *model.Target :: {x.OutputsLoaded} old(x.OutputsLoaded) ==> x.OutputsLoaded
 //@   ghostset target.resultWritten := target.resultWritten || cacheWrites > old(cacheWrites)
@@ -132,8 +133,11 @@ package execution
 //@   requires [graph] graphWF(e.graph) && e.targetHasher.graph == e.graph
 //@   before_call NewTaskWorkerPool#1 [pool_sized_by_num_workers] arg2 == old(config.Global.NumWorkers)
 
+// C05 (fail-fast): the task that runs a target's command is bound to the context the walker hands to the callback - the
+// one the walker cancels when the first failure is observed - not to a longer-lived one.
 //@ func (*Executor).Execute$2(ctx, node) (r, err)
 //@   before_call getTaskFunc#1 [task_gets_the_targets_own_tools] binTools == binToolsFor(e.graph, target) && outputIdentifiers == outputIdsFor(e.graph, target)
+//@   before_call getTaskFunc#1 [task_runs_under_the_walk_context] arg1 == ctx
 //@   captured_requires [graph] graphWF(e.graph) && e.targetHasher.graph == e.graph
 
 //@ func (*Executor).getTaskFunc(e, ctx, target, binToolPaths, outputIdentifiers) (f)
